@@ -24,7 +24,7 @@ instruction's channel, embedded in the register, and equals `instrProp` for ever
 
 **Instruction list → pulses → slices → propagator** (`end_to_end_pulses_partial`, `Lemmas/Compose*.lean`): for an instruction
 list with rational durations and coefficients, the propagator that the MODELS of C12 (`Concat.schedule`, `groupPulses`,
-`compileS Gen.concatSrc`) and C14 (`Grid.fullCoeffsV true`, `slices`, `runAnalytically`) compute from it — the product of
+`compileS Gen.concatSrc`) and C14 (`Grid.fullCoeffsV`, `slices`, `runAnalytically`) compute from it — the product of
 the slice exponentials over the merged grid — times `e^{iφ}` is the circuit's unitary.
 
 What is NOT proved here (see notes/C06.md): the routing stage of the transpilation theorem (`RouteStageDen`, a named
@@ -410,7 +410,7 @@ such that, for
 
 C12's source-driven model of `compile` returns for every label the closed-form channel `chans`, and — if the distinct
 points of the channel grids are more than `tol` apart (`SepAll`, the hypothesis of C14) — C14's model of `get_full_coeffs`
-returns a merged grid `T` and coefficient rows `rows` such that `e^{iφ}` times the product of the slice exponentials
+(either shape of its step padding) returns a merged grid `T` and coefficient rows `rows` such that `e^{iφ}` times the product of the slice exponentials
 `exp(−i·dt_k·Σ_m rows[m][k]·H_m)` that `run_analytically` multiplies up (`Grid.runAnalytically`, no drift, `H_m` the control
 Hamiltonian of label `m` on the register, prefactor `2π` included) **is the circuit's unitary `U`**.
 
@@ -443,7 +443,7 @@ theorem end_to_end_pulses_partial (circular pre : Bool) (N : ℕ) (ρ : ℕ → 
           Concat.compileS Gen.concatSrc (isQ.map (toC enc)) sch =
             some (.ok (some ((groups.map (·.1)).zip (chans.map some)))) ∧
           (Grid.SepAll tol (chans.map (·.1)) → ∃ (T : List Rat) (rows : List (List Rat)),
-            Grid.fullCoeffsV true tol (chans.map fun c => Grid.Chan.arr c.1 c.2) = .ok (T, rows) ∧
+            (∀ zl : Bool, Grid.fullCoeffsV zl tol (chans.map fun c => Grid.Chan.arr c.1 c.2) = .ok (T, rows)) ∧
             GateC.phase (reportedPhase old φ) • Grid.ordProdL (Grid.runAnalytically 0
               ((groups.map (·.1)).map (labelHam circular N enc)) (Grid.slices T rows)) = U) := by
   obtain ⟨is, φ, ws, h1, h2, _, h4, _, h6⟩ :=
@@ -466,5 +466,55 @@ theorem end_to_end_pulses_partial (circular pre : Bool) (N : ℕ) (ρ : ℕ → 
     have := hpos j hj
     show (0 : ℝ) < ((j.dur : ℚ) : ℝ)
     exact_mod_cast this
+
+-- non-vacuity of the schedule hypotheses: RX on qubit 0 and RZ on qubit 1 in parallel, then a second RX on qubit 0 (same
+-- channel, no gap), open chain of 2, any injective label numbering: `_schedule` accepts, the grouping loop builds two
+-- channels, both `ValidG` at the source's `time_tol`, pulses on a common qubit disjoint in time, durations positive
+example (enc : String × Int → ℕ) (henc : Function.Injective enc) :
+    let isQ : List (Instr Rat) := [⟨⟨.RX, [0], [], .pi8 4⟩, some ("sx", 0), 1/4, 1/2⟩,
+      ⟨⟨.RZ, [1], [], .pi8 4⟩, some ("sz", 1), 1/4, 1/2⟩, ⟨⟨.RX, [0], [], .pi8 2⟩, some ("sx", 0), 1/4, 1/4⟩]
+    let sch : Option (List Rat × List ℕ) := some ([0, 0, 1/2], [0, 1, 2])
+    let groups : List (ℕ × List (Rat × Concat.Wave)) :=
+      [(enc ("sx", 0), [(0, .scalar (1/2) (1/4)), (1/2, .scalar (1/4) (1/4))]), (enc ("sz", 1), [(0, .scalar (1/2) (1/4))])]
+    Concat.schedule (isQ.map (toC enc)) sch = .ok (isQ.map (toC enc), [0, 0, 1/2]) ∧
+    Concat.groupPulses ((isQ.map (toC enc)).zip [0, 0, 1/2]) [] = some groups ∧
+    (∀ g ∈ groups, Concat.ValidG (Gen.concatSrc.timeTol (groups.map (·.2))) 0 g.2) ∧
+    PulseDisjoint false 2 isQ (schedStarts (isQ.map (toC enc)) sch) ∧ (∀ i ∈ isQ, 0 < i.dur) := by
+  intro isQ sch groups
+  have hne : enc ("sz", 1) ≠ enc ("sx", 0) := fun h => by have := henc h; simp at this
+  refine ⟨?_, ?_, ?_, ?_, ?_⟩
+  · simp [isQ, sch, Concat.schedule, Concat.isSortedLE]
+    omega
+  · simp [isQ, groups, Concat.groupPulses, Concat.groupOne, Concat.mkWave, Concat.addPulse, toC, toRI, Compose.RI.toInstr, hne.symm]
+  · have ht : Gen.concatSrc.timeTol (groups.map (·.2)) = 1/1000000000000 * (3/4) := by
+      simp only [groups, List.map_cons, List.map_nil]
+      decide +kernel
+    intro g hg
+    simp only [groups, List.mem_cons, List.not_mem_nil, or_false] at hg
+    rw [ht]
+    rcases hg with rfl | rfl
+    · refine ⟨?_, ?_, ?_, ?_, ?_, ?_, trivial⟩
+      · show (0 : Rat) < 1/2; decide +kernel
+      · decide +kernel
+      · left; decide +kernel
+      · show (0 : Rat) < 1/4; decide +kernel
+      · decide +kernel
+      · left; decide +kernel
+    · refine ⟨?_, ?_, ?_, trivial⟩
+      · show (0 : Rat) < 1/2; decide +kernel
+      · decide +kernel
+      · left; decide +kernel
+  · intro a b ha hb hab hsh
+    have ha' : a < 3 := ha
+    have hb' : b < 3 := hb
+    simp only [schedStarts, sch]
+    interval_cases a <;> interval_cases b <;> first | exact absurd rfl hab | skip
+    all_goals
+      revert hsh
+      simp only [isQ, List.getElem_cons_zero, List.getElem_cons_succ]
+      decide +kernel
+  · intro i hi
+    simp only [isQ, List.mem_cons, List.not_mem_nil, or_false] at hi
+    rcases hi with rfl | rfl | rfl <;> norm_num
 
 end QipVerif.C06
